@@ -73,3 +73,10 @@ def _v10(repo, mod):
     fn = repo.func(REP, "_get_line_to_branchless_code_object_coverage")
     first = fn.body[0]
     return insert_before(mod, first, "_unused = dict(trace.true_distances.items())")
+
+
+@variant("C10", "covered-fast-path-ignores-exclusions", "pynguin.ga.fitness_metrics", "C10.zero-iff", "early exit on unexecuted predicates before the exclusion sets are consulted (seed C10-c)")
+def _vz1(repo, mod):
+    fn = repo.func("pynguin.ga.fitness_metrics", "compute_branch_distance_fitness_is_covered")
+    s = find_stmt(fn, lambda s: isinstance(s, ast.If) and "branch_less_code_objects" in norm(s.test))
+    return insert_before(mod, s, "if len(trace.executed_predicates) < len(subject_properties.existing_predicates):\n    return False")
